@@ -8,6 +8,9 @@ uint8_t vp_c17_children_equal(char *a, char *b) { struct dnode *x = DN(a), *y = 
 uint8_t vp_c17_is_split(char *all, char *pub, char *sens, uint32_t skipPubHead, uint32_t shared) { struct dnode *a = DN(all), *p = DN(pub), *s = DN(sens); if (!a || !p || !s) return 0;
   if (p->nch < skipPubHead + shared || s->nch < shared) return 0; uint32_t np = p->nch - skipPubHead - shared;
   if (a->nch != np + s->nch) return 0; return vpl_c17_seq_eq(a, 0, p, skipPubHead, np) && vpl_c17_seq_eq(a, np, s, 0, s->nch); }
+/* a symbolic string whose LENGTH is a constant for symex (structure concrete, characters arbitrary) */
+void vp_c17_str(char *out, uint32_t n) { ASSERT(n <= 4, "c17 string bound"); QAD *d = qs_new(n, n); uint16_t c0 = vp_u16(), c1 = vp_u16(), c2 = vp_u16(), c3 = vp_u16(); uint16_t *p = SD(d);
+  if (n > 0) p[0] = c0; if (n > 1) p[1] = c1; if (n > 2) p[2] = c2; if (n > 3) p[3] = c3; qs_seal(d, 0); *(QAD**)out = d; }
 /* ---- unknown-extension counter (QXmppElement stand-in of h.cpp) ---- */
 static uint32_t c17_unknown;
 void vp_c17_unknown_hit(void) { c17_unknown++; }
@@ -47,3 +50,36 @@ void _ZN9QDateTime10fromStringERK7QStringS2_(char *ret, char *s, char *fmt) { c1
 void _ZN9QDateTime11setTimeZoneERK9QTimeZone(char *self, char *tz) { }
 void _ZN9QTimeZoneC1Ei(char *self, uint32_t off) { *(char**)self = 0; }
 void _ZN9QTimeZoneD1Ev(char *self) { }
+/* ---- QVector<T> payload blocks (QTypedArrayData<T>::allocate is inline and would end in QArrayData::allocate, which qt_core.c
+   models for QString/QByteArray payloads only): typed blocks of fixed capacity C17_VCAP, Qt's header layout {ref,size,alloc,offset=24}.
+   Class-level override of the inline instantiations reachable from QXmppMessage.cpp. ---- */
+#ifndef C17_VCAP
+#define C17_VCAP 4
+#endif
+struct c17_vp1 { QAD h; char *data[C17_VCAP]; };                                  /* pimpl classes: one d-pointer */
+struct c17_vp2 { QAD h; struct { char *a, *b; } data[C17_VCAP]; };                /* QXmppStanzaId { QString id, by } */
+struct c17_vsv { QAD h; struct T_class_QStringView data[C17_VCAP]; };             /* QStringView { size, ptr } */
+struct c17_vref { QAD h; struct { uint32_t el, start, end, engaged; } data[C17_VCAP]; }; /* QXmppFallback::Reference { Element, optional<Range> } */
+static void c17_vhdr(QAD *h, uint64_t cap) { ASSERT(cap <= C17_VCAP, "QVector capacity of the C17 model exceeded"); REF(h) = 1; h->f1 = 0; h->f2 = (uint32_t)cap; h->f3 = sizeof(QAD); }
+char* _ZN15QTypedArrayDataI11QStringViewE8allocateEm6QFlagsIN10QArrayData16AllocationOptionEE(uint64_t cap, uint32_t opts) { struct c17_vsv *b = malloc(sizeof(struct c17_vsv)); ASSUME(b != 0); c17_vhdr(&b->h, cap); return (char*)b; }
+char* _ZN15QTypedArrayDataI13QXmppStanzaIdE8allocateEm6QFlagsIN10QArrayData16AllocationOptionEE(uint64_t cap, uint32_t opts) { struct c17_vp2 *b = malloc(sizeof(struct c17_vp2)); ASSUME(b != 0); c17_vhdr(&b->h, cap); return (char*)b; }
+char* _ZN15QTypedArrayDataI13QXmppFallbackE8allocateEm6QFlagsIN10QArrayData16AllocationOptionEE(uint64_t cap, uint32_t opts) { struct c17_vp1 *b = malloc(sizeof(struct c17_vp1)); ASSUME(b != 0); c17_vhdr(&b->h, cap); return (char*)b; }
+char* _ZN15QTypedArrayDataI14QXmppFileShareE8allocateEm6QFlagsIN10QArrayData16AllocationOptionEE(uint64_t cap, uint32_t opts) { struct c17_vp1 *b = malloc(sizeof(struct c17_vp1)); ASSUME(b != 0); c17_vhdr(&b->h, cap); return (char*)b; }
+char* _ZN15QTypedArrayDataI17QXmppOutOfBandUrlE8allocateEm6QFlagsIN10QArrayData16AllocationOptionEE(uint64_t cap, uint32_t opts) { struct c17_vp1 *b = malloc(sizeof(struct c17_vp1)); ASSUME(b != 0); c17_vhdr(&b->h, cap); return (char*)b; }
+char* _ZN15QTypedArrayDataI21QXmppBitsOfBinaryDataE8allocateEm6QFlagsIN10QArrayData16AllocationOptionEE(uint64_t cap, uint32_t opts) { struct c17_vp1 *b = malloc(sizeof(struct c17_vp1)); ASSUME(b != 0); c17_vhdr(&b->h, cap); return (char*)b; }
+char* _ZN15QTypedArrayDataI26QXmppFileSourcesAttachmentE8allocateEm6QFlagsIN10QArrayData16AllocationOptionEE(uint64_t cap, uint32_t opts) { struct c17_vp1 *b = malloc(sizeof(struct c17_vp1)); ASSUME(b != 0); c17_vhdr(&b->h, cap); return (char*)b; }
+char* _ZN15QTypedArrayDataIN13QXmppFallback9ReferenceEE8allocateEm6QFlagsIN10QArrayData16AllocationOptionEE(uint64_t cap, uint32_t opts) { struct c17_vref *b = malloc(sizeof(struct c17_vref)); ASSUME(b != 0); c17_vhdr(&b->h, cap); return (char*)b; }
+void _Z9qBadAllocv(void) { ASSERT(0, "qBadAlloc (out of scope)"); ASSUME(0); }
+/* Reference counting of QString on destruction is dropped (class-level override of the inline ~QString, as in harness C12):
+   string blocks of the model are never recycled, and an over-approximated reference count only makes the copy-on-write paths
+   of the string model copy where Qt would modify in place - value semantics are unchanged. */
+void _ZN7QStringD2Ev(char *self) { }
+void _ZN7QStringD1Ev(char *self) { }
+/* known finding D12 (JMI / call-invite elements parsed in the public block): listed in known_findings.txt <=> -DKF_d12_jmi_callinvite */
+uint8_t vp_c17_kf_d12(void) {
+#ifdef KF_d12_jmi_callinvite
+  return 1;
+#else
+  return 0;
+#endif
+}
